@@ -66,15 +66,6 @@ theorem agree_write (fs : FS) (p q : String) (c : Content) (h : q ≠ p) : Agree
 
 /-! ## the decision for a selected value depends on the file system at its two file names only -/
 
-/-- the pdf name of a tex name -/
-def pdfName (t : String) : String := pyReplace t ".tex" ".pdf"
-
-/-- the tex file name a value carries as data -/
-def texOf (v : Item) : Option String :=
-  match v.data with
-  | .str t => some t
-  | _ => none
-
 theorem pdfDecide_congr (ow : Bool) (fs fs' : FS) (v : Item)
     (h : ∀ t, texOf v = some t → Agree fs fs' t ∧ Agree fs fs' (pdfName t)) :
     pdfDecide ow fs v = pdfDecide ow fs' v := by
@@ -87,16 +78,6 @@ theorem pdfDecide_congr (ow : Bool) (fs fs' : FS) (v : Item)
   | _ => rfl
 
 /-! ## results of the process pool -/
-
-/-- what the processes of a pool will yield once they have ended: `(key, context)` for return code 0 -/
-def pending (rc : Nat → Int) (pool : List Proc) : List Item :=
-  pool.filterMap (fun p => if rc p.pid != 0 then none else some (procResult p))
-
-/-- the values made by the element among what was yielded -/
-def prodsOf (es : List Emit) : List Item :=
-  es.filterMap (fun e => match e with
-    | .prod v => some v
-    | .pass _ => none)
 
 theorem prodsOf_append (a b : List Emit) : prodsOf (a ++ b) = prodsOf a ++ prodsOf b := by
   simp [prodsOf, List.filterMap_append]
@@ -177,25 +158,18 @@ theorem poolSet_of_not_mem (p : Proc) : ∀ pool : List Proc, p.key ∉ pool.map
 
 /-! ## the timing-free description -/
 
-/-- decide every selected value against one file system `fs`; `n` = number of processes launched so far -/
-def pdfSpec (ow : Bool) (rc : Nat → Int) (fs : FS) : Nat → List Item → List Item
-  | _, [] => []
-  | n, a :: as =>
-    match pdfDecide ow fs a with
-    | .err _ => []
-    | .skip y => y :: pdfSpec ow rc fs n as
-    | .launch key tex ctx =>
-      (if rc n != 0 then [] else [procResult ⟨key, n, tex, ctx, a.tok⟩]) ++ pdfSpec ow rc fs (n + 1) as
-
-/-- the tex names of the selected values of a flow, and the pdf names made from them -/
-def selTex (xs : List Item) : List String := (xs.filter pdfSel).filterMap texOf
-def selKeys (xs : List Item) : List String := (selTex xs).map pdfName
-
 /-- the files do not collide: the pdf names in the pool and of the selected values are pairwise different,
 and no tex name is one of these pdf names -/
 structure KeysOK (poolKeys : List String) (xs : List Item) : Prop where
   nodup : (poolKeys ++ selKeys xs).Nodup
   texNotKey : ∀ t ∈ selTex xs, t ∉ poolKeys ++ selKeys xs
+
+/-- the executable check `keysOKb` (what the model driver evaluates) implies `KeysOK` -/
+theorem keysOK_of_keysOKb (poolKeys : List String) (xs : List Item) (h : keysOKb poolKeys xs = true) :
+    KeysOK poolKeys xs := by
+  simp only [keysOKb, Bool.and_eq_true, decide_eq_true_eq, List.all_eq_true, Bool.not_eq_true',
+    List.contains_eq_mem, decide_eq_false_iff_not] at h
+  exact ⟨h.1, h.2⟩
 
 theorem pdfSpec_congr (ow : Bool) (rc : Nat → Int) (fs fs' : FS) : ∀ (as : List Item) (n : Nat),
     (∀ t ∈ as.filterMap texOf, Agree fs fs' t ∧ Agree fs fs' (pdfName t)) →
